@@ -383,8 +383,18 @@ namespace nrf52_details
 
     bluetoe::details::uint128_t security_tool_box::create_passkey()
     {
+        // a passkey is a 6 digit decimal number; draw 20 bit numbers until one is in range to keep the
+        // distribution uniform
+        static constexpr std::uint32_t passkey_limit = 1000000;
+        std::uint32_t passkey = passkey_limit;
+
+        while ( passkey >= passkey_limit )
+            passkey = random_number32() & 0xfffff;
+
         const bluetoe::details::uint128_t result{{
-            random_number8(), random_number8(), random_number8()
+            static_cast< std::uint8_t >( passkey & 0xff ),
+            static_cast< std::uint8_t >( ( passkey >> 8 ) & 0xff ),
+            static_cast< std::uint8_t >( ( passkey >> 16 ) & 0xff )
         }};
 
         return result;
